@@ -517,134 +517,166 @@ pub fn run(ctx: &Ctx, replay: Option<&Value>) -> i32 {
     let max_depth = if thorough { 64 } else { 3 };
     let full = thorough;
 
+    // The search runs once per state of the disk: without any file, and with an `other.asm` on disk that
+    // assembles with an error of its own (what the server falls back to when the buffer is closed).
+    let mut states = 0usize;
+    let mut total_transitions = 0u64;
+    let mut total_requests = 0u64;
+    let mut depth_reached = 0usize;
+    let mut closure = true;
+    let mut samples_for_replay: Vec<Value> = vec![];
+    for (disk_name, disk_other) in [("empty", None), ("other.asm-with-error", Some("foo: nop\nlda nope\n"))] {
+        let disk_path = crate::lspdrv::root().join("other.asm");
+        match disk_other {
+            Some(t) => std::fs::write(&disk_path, t).expect("cannot write the disk file"),
+            None => {
+                let _ = std::fs::remove_file(&disk_path);
+            }
+        }
     // reference observations per buffer configuration (fresh server, didOpen of final buffers)
-    let reference: Mutex<HashMap<Buffers, (u64, Observation)>> = Mutex::new(HashMap::new());
-    let get_reference = |b: &Buffers| -> (u64, Observation) {
-        if let Some(r) = reference.lock().unwrap().get(b) {
-            return r.clone();
-        }
-        // other.asm first, so that main.asm's import finds it
-        let mut h = vec![];
-        for f in [1usize, 2, 0] {
-            if let Some(t) = b[f] {
-                h.push(Event::Open(f, t));
+        let reference: Mutex<HashMap<Buffers, (u64, Observation)>> = Mutex::new(HashMap::new());
+        let get_reference = |b: &Buffers| -> (u64, Observation) {
+            if let Some(r) = reference.lock().unwrap().get(b) {
+                return r.clone();
             }
-        }
-        let o = observe(&h, &battery(b, full), b);
-        let d = o.digest();
-        reference.lock().unwrap().insert(*b, (d, o.clone()));
-        (d, o)
-    };
-
-    let seen: Mutex<HashSet<(Buffers, u64)>> = Mutex::new(HashSet::new());
-    let transitions = std::sync::atomic::AtomicU64::new(0);
-    let requests = std::sync::atomic::AtomicU64::new(0);
-    let mut frontier: Vec<Vec<Event>> = vec![vec![]];
-    seen.lock().unwrap().insert(([None; 3], get_reference(&[None; 3]).0));
-    let mut depth = 0;
-    let mut closure = false;
-    let sample_histories: Mutex<Vec<Value>> = Mutex::new(vec![]);
-    while !frontier.is_empty() && depth < max_depth {
-        depth += 1;
-        let next: Mutex<Vec<Vec<Event>>> = Mutex::new(vec![]);
-        let work: Vec<(Vec<Event>, Event)> = frontier
-            .iter()
-            .flat_map(|h| {
-                let b = buffers_after(h);
-                enabled_events(&b, thorough).into_iter().map(move |e| (h.clone(), e))
-            })
-            .collect();
-        work.par_iter().for_each(|(h, e)| {
-            let mut hist = h.clone();
-            hist.push(e.clone());
-            let b = buffers_after(&hist);
-            let bat = battery(&b, full);
-            transitions.fetch_add(1, std::sync::atomic::Ordering::Relaxed);
-            requests.fetch_add(bat.len() as u64, std::sync::atomic::Ordering::Relaxed);
-            ctx.eval(|| json!(hist.iter().map(|e| e.to_json()).collect::<Vec<_>>()));
-            let obs = observe(&hist, &bat, &b);
-            let d = obs.digest();
-            let (rd, robs) = get_reference(&b);
-            let hist_json = json!(hist.iter().map(|e| e.to_json()).collect::<Vec<_>>());
-            // (i) every request answered, server alive
-            for (p, death) in &obs.deaths {
-                ctx.finding(Finding::new(
-                    death_sig(p, death),
-                    format!("{} at {}:{}:{} ({}) ended the server: {:?}", p.method, FILES[p.file], p.line, p.character, p.class, death),
-                    json!({"history": hist_json, "probe": {"method": p.method, "file": FILES[p.file], "line": p.line, "character": p.character}}),
-                ));
-            }
-            // (iii) well-formedness
-            for (p, why) in &obs.malformed {
-                ctx.finding(Finding::new(
-                    format!("lsp:{}:{}:malformed:{}", p.method.trim_start_matches("textDocument/"), p.class, why.split(' ').take(2).collect::<Vec<_>>().join("-")),
-                    format!("{} at {}:{}:{}: {}", p.method, FILES[p.file], p.line, p.character, why),
-                    json!({"history": hist_json, "probe": {"method": p.method, "file": FILES[p.file], "line": p.line, "character": p.character}}),
-                ));
-            }
-            // (ii) equals the fresh server
-            if d != rd {
-                // first differing probe
-                let mut reported = false;
-                for (i, (a, r)) in obs.answers.iter().zip(robs.answers.iter()).enumerate() {
-                    if a != r {
-                        let p = &bat[i];
-                        if a.is_err() || r.is_err() {
-                            // deaths are reported above
-                            continue;
-                        }
-                        ctx.finding(Finding::new(
-                            format!("lsp:{}:{}:stale-after:{}", p.method.trim_start_matches("textDocument/"), p.class, stale_cause(&hist)),
-                            format!(
-                                "after the history the answer to {} at {}:{}:{} is {} but a fresh server with the same buffers answers {}",
-                                p.method, FILES[p.file], p.line, p.character,
-                                trunc(&a.as_ref().unwrap().to_string()), trunc(&r.as_ref().unwrap().to_string())
-                            ),
-                            json!({"history": hist_json, "probe": {"method": p.method, "file": FILES[p.file], "line": p.line, "character": p.character}}),
-                        ));
-                        reported = true;
-                        break;
-                    }
+            // other.asm first, so that main.asm's import finds it
+            let mut h = vec![];
+            for f in [1usize, 2, 0] {
+                if let Some(t) = b[f] {
+                    h.push(Event::Open(f, t));
                 }
-                if !reported && nonempty(&obs.diags) != nonempty(&robs.diags) {
+            }
+            let o = observe(&h, &battery(b, full), b);
+            let d = o.digest();
+            reference.lock().unwrap().insert(*b, (d, o.clone()));
+            (d, o)
+        };
+
+        let seen: Mutex<HashSet<(Buffers, u64)>> = Mutex::new(HashSet::new());
+        let transitions = std::sync::atomic::AtomicU64::new(0);
+        let requests = std::sync::atomic::AtomicU64::new(0);
+        let mut frontier: Vec<Vec<Event>> = vec![vec![]];
+        seen.lock().unwrap().insert(([None; 3], get_reference(&[None; 3]).0));
+        let mut depth = 0;
+        let mut closure_here = false;
+        let sample_histories: Mutex<Vec<Value>> = Mutex::new(vec![]);
+        while !frontier.is_empty() && depth < max_depth {
+            depth += 1;
+            let next: Mutex<Vec<Vec<Event>>> = Mutex::new(vec![]);
+            let work: Vec<(Vec<Event>, Event)> = frontier
+                .iter()
+                .flat_map(|h| {
+                    let b = buffers_after(h);
+                    enabled_events(&b, thorough).into_iter().map(move |e| (h.clone(), e))
+                })
+                .collect();
+            work.par_iter().for_each(|(h, e)| {
+                let mut hist = h.clone();
+                hist.push(e.clone());
+                let b = buffers_after(&hist);
+                let bat = battery(&b, full);
+                transitions.fetch_add(1, std::sync::atomic::Ordering::Relaxed);
+                requests.fetch_add(bat.len() as u64, std::sync::atomic::Ordering::Relaxed);
+                ctx.eval(|| json!(hist.iter().map(|e| e.to_json()).collect::<Vec<_>>()));
+                let obs = observe(&hist, &bat, &b);
+                let d = obs.digest();
+                if disk_other.is_some() && json!(obs.diags).to_string().contains("unknown identifier: nope") {
+                    // (evidence that the disk file is what the server reads when the buffer is closed)
+                    ctx.count("states_showing_the_disk_file's_own_error");
+                }
+                let (rd, robs) = get_reference(&b);
+                let hist_json = json!(hist.iter().map(|e| e.to_json()).collect::<Vec<_>>());
+                // (i) every request answered, server alive
+                for (p, death) in &obs.deaths {
                     ctx.finding(Finding::new(
-                        format!("lsp:publishDiagnostics:stale-after:{}", stale_cause(&hist)),
-                        format!("last published diagnostics {} differ from a fresh server's {}", trunc(&json!(obs.diags).to_string()), trunc(&json!(robs.diags).to_string())),
-                        json!({"history": hist_json}),
+                        death_sig(p, death),
+                        format!("{} at {}:{}:{} ({}) ended the server: {:?}", p.method, FILES[p.file], p.line, p.character, p.class, death),
+                        json!({"history": hist_json, "probe": {"method": p.method, "file": FILES[p.file], "line": p.line, "character": p.character}}),
                     ));
                 }
-            }
-            if seen.lock().unwrap().insert((b, d)) {
-                ctx.nontrivial(fnv_str(&format!("{:?}{}", b, d)));
-                let mut sh = sample_histories.lock().unwrap();
-                if sh.len() < 300 {
-                    sh.push(hist_json);
+                // (iii) well-formedness
+                for (p, why) in &obs.malformed {
+                    ctx.finding(Finding::new(
+                        format!("lsp:{}:{}:malformed:{}", p.method.trim_start_matches("textDocument/"), p.class, why.split(' ').take(2).collect::<Vec<_>>().join("-")),
+                        format!("{} at {}:{}:{}: {}", p.method, FILES[p.file], p.line, p.character, why),
+                        json!({"history": hist_json, "probe": {"method": p.method, "file": FILES[p.file], "line": p.line, "character": p.character}}),
+                    ));
                 }
-                next.lock().unwrap().push(hist);
+                // (ii) equals the fresh server
+                if d != rd {
+                    // first differing probe
+                    let mut reported = false;
+                    for (i, (a, r)) in obs.answers.iter().zip(robs.answers.iter()).enumerate() {
+                        if a != r {
+                            let p = &bat[i];
+                            if a.is_err() || r.is_err() {
+                                // deaths are reported above
+                                continue;
+                            }
+                            ctx.finding(Finding::new(
+                                format!("lsp:{}:{}:stale-after:{}", p.method.trim_start_matches("textDocument/"), p.class, stale_cause(&hist)),
+                                format!(
+                                    "after the history the answer to {} at {}:{}:{} is {} but a fresh server with the same buffers answers {}",
+                                    p.method, FILES[p.file], p.line, p.character,
+                                    trunc(&a.as_ref().unwrap().to_string()), trunc(&r.as_ref().unwrap().to_string())
+                                ),
+                                json!({"history": hist_json, "probe": {"method": p.method, "file": FILES[p.file], "line": p.line, "character": p.character}}),
+                            ));
+                            reported = true;
+                            break;
+                        }
+                    }
+                    if !reported && nonempty(&obs.diags) != nonempty(&robs.diags) {
+                        ctx.finding(Finding::new(
+                            format!("lsp:publishDiagnostics:stale-after:{}", stale_cause(&hist)),
+                            format!("last published diagnostics {} differ from a fresh server's {}", trunc(&json!(obs.diags).to_string()), trunc(&json!(robs.diags).to_string())),
+                            json!({"history": hist_json}),
+                        ));
+                    }
+                }
+                if seen.lock().unwrap().insert((b, d)) {
+                    ctx.nontrivial(fnv_str(&format!("{:?}{}", b, d)));
+                    let mut sh = sample_histories.lock().unwrap();
+                    if sh.len() < 300 {
+                        sh.push(hist_json);
+                    }
+                    next.lock().unwrap().push(hist);
+                }
+            });
+            frontier = next.into_inner().unwrap();
+            eprintln!("[c14] depth {} done: {} states, {} transitions, frontier {}", depth, seen.lock().unwrap().len(), transitions.load(std::sync::atomic::Ordering::Relaxed), frontier.len());
+            if frontier.is_empty() {
+                closure_here = true;
             }
-        });
-        frontier = next.into_inner().unwrap();
-        eprintln!("[c14] depth {} done: {} states, {} transitions, frontier {}", depth, seen.lock().unwrap().len(), transitions.load(std::sync::atomic::Ordering::Relaxed), frontier.len());
-        if frontier.is_empty() {
-            closure = true;
         }
+        let states_here = seen.lock().unwrap().len();
+        states += states_here;
+        total_transitions += transitions.load(std::sync::atomic::Ordering::Relaxed);
+        total_requests += requests.load(std::sync::atomic::Ordering::Relaxed);
+        depth_reached = depth_reached.max(depth);
+        ctx.set(&format!("states_disk_{}", disk_name), json!(states_here));
+        if !closure_here {
+            closure = false;
+            ctx.note(format!("disk {}: search stopped at the depth bound {} with {} frontier states", disk_name, max_depth, frontier.len()));
+        }
+        // (the conformance replays run against a real process in an empty directory)
+        if disk_other.is_none() {
+            samples_for_replay = sample_histories.into_inner().unwrap();
+        }
+        let _ = std::fs::remove_file(&disk_path);
     }
-    let states = seen.lock().unwrap().len();
     ctx.set("states", json!(states));
-    ctx.set("transitions", json!(transitions.load(std::sync::atomic::Ordering::Relaxed)));
-    ctx.set("requests_sent", json!(requests.load(std::sync::atomic::Ordering::Relaxed)));
-    ctx.set("max_depth_reached", json!(depth));
+    ctx.set("transitions", json!(total_transitions));
+    ctx.set("requests_sent", json!(total_requests));
+    ctx.set("max_depth_reached", json!(depth_reached));
     ctx.set("closure_reached", json!(closure));
-    if !closure {
-        ctx.note(format!("search stopped at the depth bound {} with {} frontier states", max_depth, frontier.len()));
-    }
     // conformance with the real process
-    let validated = super::c14_real::validate(ctx, &sample_histories.lock().unwrap(), if thorough { 200 } else { 40 });
+    let validated = super::c14_real::validate(ctx, &samples_for_replay, if thorough { 200 } else { 40 });
     ctx.set("traces_validated_against_impl", json!(validated));
     crate::lspdrv::cleanup_root();
     ctx.finish(
         "model_checking",
-        "explicit-state BFS over LSP event histories (didOpen/didChange/didClose of 3 files with a typing ladder of texts, rename, codeLens, formatting); each state = history replayed on a fresh real server (real main loop over an in-memory connection); in every state the probe battery (10 request types x token starts / line ends / beyond-end / inside-multibyte positions x 3 files) is compared with a fresh server opened on the final buffers; canonical key = (buffers, digest of answers and diagnostics); states = distinct keys",
+        "explicit-state BFS over LSP event histories (didOpen/didChange/didClose of 3 files with a typing ladder of texts, rename, codeLens, formatting), once with an empty disk and once with an imported file on disk that has an error of its own; each state = history replayed on a fresh real server (real main loop over an in-memory connection); in every state the probe battery (10 request types x token starts / line ends / beyond-end / inside-multibyte positions x 3 files) is compared with a fresh server opened on the final buffers; canonical key = (buffers, digest of answers and diagnostics); states = distinct keys",
         closure,
         &[
             "stdio framing is exercised only by the conformance replays against the real `mos lsp` process",
